@@ -284,7 +284,10 @@ def check(prop, tier, update_baseline=False, only=None, procs=16):
     ev = {
         "property_id": prop, "tier": tier, "seed": seed, "level": "proof",
         "coverage": {
-            "obligations": total, "discharged": proved,
+            # obligations that fail ONLY inside a listed known finding are reported separately (they are neither
+            # claimed nor counted); every other obligation must be discharged for exit 0
+            "obligations": total - len(set(known_hit) & {k_ for (_, _, k_) in refuted}), "discharged": proved,
+            "obligations_including_known_findings": total,
             "checker_cmd": f"python3-vt -m pyvc.cli check {prop} --tier {tier}",
             "trusted_base": ["pyvc (AST interpreter + VC generator, /verif/pyvc)", "z3 4.x/5.1 (python API)", "cvc5 1.0.3 (CLI)",
                              "library models in pyvc/libmodels.py, libnp.py, libpd.py (numpy<1.20 / pandas 1.x semantics)",
